@@ -22,6 +22,14 @@ func check(c arith.Case, st *core.Stats) error {
 	var o arith.Out
 	core.Guard(st, func() { o = arith.Exec(c) })
 	st.Class("op:" + c.Op)
+	// the same call with the result written over the operand must agree (Ceil and Floor read
+	// the operand through Modf after they have started writing)
+	var oa arith.Out
+	core.Guard(st, func() { x := c.X.Apd(); oa = arith.Call(c.Op, c.Ctx.Apd(), x, x, nil, c.QExp, "") })
+	if (o.Err == nil) != (oa.Err == nil) || (o.Err == nil && (!core.SameFields(o.D, oa.D) || o.Res != oa.Res)) {
+		return fmt.Errorf("%v: %s flags=%s err=%v with a fresh destination, but %s flags=%s err=%v when the destination is the operand",
+			c, core.Show(o.D), core.FlagStr(o.Res), o.Err, core.Show(oa.D), core.FlagStr(oa.Res), oa.Err)
+	}
 	if !e.Defined {
 		st.Class("outside-quantifier")
 		return nil
